@@ -184,6 +184,9 @@ func (r *Report) Finish(verifDir string, known KnownFile, only *Obligation) int 
 			if o.Trivial {
 				ntriv++
 			}
+			if os.Getenv("GVCHECK_LIST") != "" && !o.Trivial {
+				fmt.Printf("DISCHARGED %s: %s [%s] %s\n", o.Pos, o.Rule, o.Key, o.Detail)
+			}
 			continue
 		}
 		matched := false
